@@ -156,6 +156,27 @@ struct Sch {
     fields: Vec<FieldSpec>,
 }
 
+/// constants extracted from the Rust sources (through `Gen/Store.lean` and the model driver)
+#[derive(Clone, Copy)]
+struct Consts {
+    period: usize,
+    default_bs: usize,
+    cache_cap: usize,
+    min_stack_blocks: usize,
+    footer_len: usize,
+}
+
+fn read_consts(ctx: &mut Ctx) -> Consts {
+    let r = ctx.model.ask("C09 consts");
+    let v: Vec<usize> = r.split(' ').filter_map(|t| t.parse().ok()).collect();
+    if v.len() == 6 {
+        Consts { period: v[0], default_bs: v[1], cache_cap: v[2], min_stack_blocks: v[4], footer_len: v[5] }
+    } else {
+        ctx.report.notes.push(format!("model driver did not report the constants ({r}); using the pinned values"));
+        Consts { period: 8, default_bs: 16384, cache_cap: 100, min_stack_blocks: 6, footer_len: 28 }
+    }
+}
+
 fn build_schema() -> Sch {
     let mut sb = Schema::builder();
     let id = sb.add_u64_field("id", INDEXED | FAST);
@@ -771,13 +792,13 @@ fn boundary_count(rng: &mut Rng, period: usize, thorough: bool) -> usize {
     *rng.pick(&cands)
 }
 
-fn case_store(ctx: &mut Ctx, sub: u64) {
+fn case_store(ctx: &mut Ctx, k: Consts, sub: u64) {
     let mut rng = Rng::new(sub);
     let case = json!({"kind": "store", "sub": sub.to_string()});
     let comp = pick_compressor(&mut rng);
-    let bs = pick_blocksize(&mut rng, 16384);
+    let bs = pick_blocksize(&mut rng, k.default_bs);
     let thread = rng.chance(1, 2);
-    let n = boundary_count(&mut rng, 8, ctx.thorough());
+    let n = boundary_count(&mut rng, k.period, ctx.thorough());
     // keep the total volume bounded: many documents → small documents
     let sizes = if n > 600 || (bs > 4000 && n > 100) { vec![1 + rng.usize_below(3); n] } else { gen_doc_sizes(&mut rng, n, bs.min(3000)) };
     let docs: Vec<Vec<u8>> = sizes
@@ -805,7 +826,7 @@ fn case_store(ctx: &mut Ctx, sub: u64) {
             return;
         }
     };
-    let cache = *rng.pick(&[0usize, 1, 2, 3, 100]);
+    let cache = *rng.pick(&[0usize, 1, 2, 3, k.cache_cap]);
     let reader = match open_real(&file, cache) {
         Ok(r) => r,
         Err(e) => {
@@ -814,7 +835,7 @@ fn case_store(ctx: &mut Ctx, sub: u64) {
         }
     };
     let cps = tantivy::verif::c09_block_checkpoints(&reader);
-    let layers = { let mut l = 0; let mut k = cps.len(); while k > 0 { l += 1; k /= 8; } l };
+    let layers = { let mut l = 0; let mut m = cps.len(); while m > 0 { l += 1; m /= k.period; } l };
     ctx.report.count(&format!("store-blocks:{}", bucket(cps.len())));
     ctx.report.count(&format!("store-skip-layers:{layers}"));
     if docs.iter().any(|d| d.len() > bs) {
@@ -932,14 +953,14 @@ fn case_store(ctx: &mut Ctx, sub: u64) {
         ctx.report.count(&format!("cache-capacity:{cache}"));
     }
     // the skip index of the real file (any compressor): builder bytes and seek answers
-    if file.len() >= 28 && cps.len() <= 5000 {
+    if file.len() >= k.footer_len && k.footer_len == 28 && cps.len() <= 5000 {
         let foot = &file[file.len() - 28..];
         let offset = u64::from_le_bytes(foot[4..12].try_into().unwrap()) as usize;
         if offset <= file.len() - 28 {
             let skip = &file[offset..file.len() - 28];
             let dls: Vec<u32> = cps.iter().map(|c| c.1 - c.0).collect();
             let bls: Vec<usize> = cps.iter().map(|c| c.3 - c.2).collect();
-            let ms = ctx.model.ask(&format!("C09 skipser 8 {} {}", nat_list(&dls), nat_list(&bls)));
+            let ms = ctx.model.ask(&format!("C09 skipser {} {} {}", k.period, nat_list(&dls), nat_list(&bls)));
             if ms != hex(skip) {
                 ctx.report.violation("model", "C09:skip-index-bytes", format!("skip index of the real file ({} checkpoints, {} bytes) differs from the model builder's", cps.len(), skip.len()), case.clone());
             }
@@ -1303,10 +1324,10 @@ fn segment_stores(index: &Index) -> Option<Vec<(tantivy::index::SegmentId, Vec<u
     Some(out)
 }
 
-fn case_index(ctx: &mut Ctx, sch: &Sch, sub: u64) {
+fn case_index(ctx: &mut Ctx, sch: &Sch, k: Consts, sub: u64) {
     let mut rng = Rng::new(sub);
     let case = json!({"kind": "index", "sub": sub.to_string()});
-    let st = Settings { comp: pick_compressor(&mut rng), bs: pick_blocksize(&mut rng, 16384), thread: rng.chance(1, 2) };
+    let st = Settings { comp: pick_compressor(&mut rng), bs: pick_blocksize(&mut rng, k.default_bs), thread: rng.chance(1, 2) };
     let sorted = match rng.below(8) {
         0 => Some(tantivy::Order::Asc),
         1 => Some(tantivy::Order::Desc),
@@ -1444,7 +1465,7 @@ fn case_index(ctx: &mut Ctx, sch: &Sch, sub: u64) {
         for (_, bytes, bits) in b {
             if let Ok(r) = open_real(bytes, 1) {
                 let nblocks = tantivy::verif::c09_block_checkpoints(&r).len();
-                if bits == "all" && nblocks >= 6 {
+                if bits == "all" && nblocks >= k.min_stack_blocks {
                     stacked_expected = true;
                 }
             }
@@ -1547,13 +1568,14 @@ pub fn run(ctx: &mut Ctx) {
         "model iterRaw on real files with deletes = live documents".into(),
     ];
     let sch = build_schema();
+    let k = read_consts(ctx);
     if let Some(case) = ctx.replay.clone() {
         let sub: u64 = case["sub"].as_str().and_then(|s| s.parse().ok()).unwrap_or(0);
         match case["kind"].as_str().unwrap_or("") {
             "codec" => case_codec(ctx, &sch, sub),
-            "store" => case_store(ctx, sub),
+            "store" => case_store(ctx, k, sub),
             "stack" => case_stack(ctx, sub),
-            "index" => case_index(ctx, &sch, sub),
+            "index" => case_index(ctx, &sch, k, sub),
             "index2" => case_index_two_rounds(ctx, &sch, sub),
             "vint" => case_vint(ctx),
             "deep" => case_deep(ctx, &sch, sub as usize),
@@ -1577,7 +1599,7 @@ pub fn run(ctx: &mut Ctx) {
     }
     for _ in 0..ctx.budget(320, 6000) {
         let sub = ctx.rng.next_u64();
-        case_store(ctx, sub);
+        case_store(ctx, k, sub);
     }
     for _ in 0..ctx.budget(80, 1500) {
         let sub = ctx.rng.next_u64();
@@ -1585,7 +1607,7 @@ pub fn run(ctx: &mut Ctx) {
     }
     for _ in 0..ctx.budget(110, 2500) {
         let sub = ctx.rng.next_u64();
-        case_index(ctx, &sch, sub);
+        case_index(ctx, &sch, k, sub);
     }
     for _ in 0..ctx.budget(20, 400) {
         let sub = ctx.rng.next_u64();
